@@ -15,6 +15,7 @@ import threading
 from harness import spans  # noqa: F401  (installs the API-only tracer provider before bluesky is imported)
 
 from harness import devices as D
+from harness import rec as rec_mod
 from harness.rec import PlanErr, Recorder, exc_kind
 from harness.steploop import StepLoop
 
@@ -111,6 +112,17 @@ class Scenario:
         RE.record_interruptions = bool(opts.get("record_interruptions", False))
         rec.attach(RE)
         spans.SINK[0] = rec
+        if opts.get("raising_consumer"):
+            # a document consumer that rejects the events of one stream (RE.ignore_callback_exceptions is False by default)
+            bad = opts["raising_consumer"]
+            descs = {}
+
+            def consumer(name, doc):
+                if name == "descriptor":
+                    descs[doc["uid"]] = doc.get("name")
+                if name == "event" and descs.get(doc["descriptor"]) == bad:
+                    raise rec_mod.PlanErr("consumer cannot handle this event")
+            RE.subscribe(consumer)
         loop.is_run_step = lambda h: RE._task is not None and getattr(h._callback, "__self__", None) is RE._task
         loop.active = lambda: RE._task is not None and not RE._task.done()
         loop.hold_time = lambda: str(RE._state) == "paused"
@@ -262,7 +274,7 @@ class Scenario:
                 oc, nu = "interrupted", 0
             except BaseException as e:  # noqa
                 oc, nu = "exc:" + exc_kind(e), 0
-            rec.ev("ret", op, oc, str(RE.state), nu, int(RE.resumable))
+            rec.ev("ret", op, oc, str(RE.state), nu, int(RE.resumable), "D" if RE.deferred_pause_requested else "")
             outcomes.append((op, oc, str(RE.state)))
 
         loop.point = 0
